@@ -4,7 +4,7 @@
    (re)started tracker, and every event list evs: Track / Untrack (each preceded by the matching change of the shared
    state), Recover, RecoverAll with every visiting order, completion of any in-flight IPFS call with or without a fault,
    and - where stated - arbitrary changes of the daemon behind the tracker's back (EDaemon). *)
-From V Require Import Base.Common Model.C05_Tracker Proofs.C05_Tracker.
+From V Require Import Base.Common Model.C05_Tracker Model.C05_Check Proofs.C05_Tracker Proofs.C05_Monitor.
 Open Scope N_scope.
 
 Definition reached (q n : nat) (ps : list (N * tpin)) (i : list (N * bool)) (evs : list event) : st := run (init q n ps i) evs.
@@ -109,4 +109,53 @@ Example full_queue_example :
   let s := reached 1 1 [] [] [ETrack (mk_pin 1 false false false 1); ETrack (mk_pin 2 false false false 2)] in
   snd (step s (ETrack (mk_pin 3 false false true 3))) = RFull /\
   status_of (fst (step s (ETrack (mk_pin 3 false false true 3)))) 3 = SPinError.
+Proof. vm_compute. repeat split. Qed.
+
+(* ---- the run-time monitors of Model/C05_Check.v (spec_codes: 10, 11, 13, 14) mean what they should: soundness ----
+   A case is a configuration cf and a history l of (event, observation of the implementation after it). *)
+
+(* the monitor's own record of the shared state and of the last instruction per cid is the model's, along every script *)
+Theorem monitor_shared_state cf l :
+  sp_pinset (sp_after cf l) = pinset (run (init_of cf) (map fst l)) /\ sp_last (sp_after cf l) = last (run (init_of cf) (map fst l)).
+Proof. exact (sp_shared_state_l cf l). Qed.
+Print Assumptions monitor_shared_state.
+
+(* code 10 absent: at every quiescent observation (nothing in flight, no pending status) each pin the shared state - the model's
+   `pinset` after the same events - assigns to this peer is held by the daemon in the recorded mode or its status is an error
+   (the observed form of tracker_quiescent_converged); a cid whose last instruction was Untrack is unpinned or in error, a pin
+   moved elsewhere whose local unpin succeeded is unpinned *)
+Theorem conv_monitor_sound cf pre e o post : ~ In 10 (spec_codes cf (pre ++ (e, o) :: post)) -> o_quiescent o = true ->
+  conv_spec (ncid_of cf) (pinset (run (init_of cf) (map fst (pre ++ [(e, o)])))) o /\
+  conv_removed_spec (ncid_of cf) (sp_after cf (pre ++ [(e, o)])) o.
+Proof. exact (conv_monitor_sound_l cf pre e o post). Qed.
+Print Assumptions conv_monitor_sound.
+
+(* code 11 absent: after a nil return the instruction is queued / in progress (a remote pin: status remote and its unpin in
+   flight), after ErrFullQueue the cid is in error (the observed form of enqueue_full_is_reported) *)
+Theorem inst_monitor_sound cf pre e o post : ~ In 11 (spec_codes cf (pre ++ (e, o) :: post)) -> inst_spec e o.
+Proof. exact (inst_monitor_sound_l cf pre e o post). Qed.
+Print Assumptions inst_monitor_sound.
+
+(* code 13 absent: the observed form of tracker_recover_heals *)
+Theorem heal_monitor_sound cf pre e o post d0 : ~ In 13 (spec_codes cf (pre ++ (e, o) :: post)) -> o_quiescent o = true ->
+  sp_heal (sp_after cf (pre ++ [(e, o)])) = Some d0 -> heal_spec (ncid_of cf) (sp_after cf (pre ++ [(e, o)])) d0 o.
+Proof. exact (heal_monitor_sound_l cf pre e o post d0). Qed.
+Print Assumptions heal_monitor_sound.
+
+(* code 14 absent: every pin request in flight carries the mode and options of a pin recorded for that cid (initially or by
+   a Track of the script so far) - the observed form of recover_reissues_recorded_pin *)
+Theorem opts_monitor_sound cf pre e o post c d t : ~ In 14 (spec_codes cf (pre ++ (e, o) :: post)) ->
+  In (c, 0, d, t) (o_inflight o) ->
+  exists p, In p (recorded_pins cf (pre ++ [(e, o)])) /\ pcid p = c /\ (if pdirect p then 1 else 0) = d /\ ptag p = t.
+Proof. exact (opts_monitor_sound_l cf pre e o post c d t). Qed.
+Print Assumptions opts_monitor_sound.
+
+(* non-vacuity: Track a direct pin, its call in flight, then done and held direct: accepted; held recursively instead, or the
+   call in flight carrying another tag: rejected *)
+Example c05_monitor_example :
+  let cf : cfg := (1%nat, 1%nat, 2, [], []) in
+  let p := mk_pin 1 false false true 7 in
+  let h dm t := [(ETrack p, (0, [128; 32], [(1, 32)], [], [(1, 0, 1, t)], []));
+                 (EComplete 1 false, (0, [128; 16], [(1, 16)], dm, [], []))] in
+  spec_codes cf (h [(1, 2)] 7) = [] /\ spec_codes cf (h [(1, 1)] 7) = [10] /\ spec_codes cf (h [(1, 2)] 8) = [14].
 Proof. vm_compute. repeat split. Qed.
